@@ -539,17 +539,22 @@ def seq_concat(I, ctx, fr, a, b, node):
         if is_list and not fr.spec:
             return ctx.alloc(HList(items=list(ia) + list(ib)))
         return VTuple(list(ia) + list(ib))
-    qa = I._as_seq(ctx, a)
-    qb = I._as_seq(ctx, b)
-    if qa is None and qb is not None:
-        qa = I._as_seq(ctx, a, qb[1])
-    if qb is None and qa is not None:
-        qb = I._as_seq(ctx, b, qa[1])
-    if qa is None or qb is None:
+    # at least one side is symbolic: its element type decides the embedding
+    qa = I._as_seq(ctx, a) if ia is None else None
+    qb = I._as_seq(ctx, b) if ib is None else None
+    et = (qa or qb)
+    if et is None:
         raise Unsupported('+ on %r, %r' % (a, b), node)
+    et = et[1]
+    try:
+        if qa is None:
+            qa = (Z.seq_of(et.zsort, [et.to_z(i, ctx) for i in ia]), et)
+        if qb is None:
+            qb = (Z.seq_of(et.zsort, [et.to_z(i, ctx) for i in ib]), et)
+    except TypeError as e:
+        raise Unsupported('concatenation: %s' % e, node)
     if qa[1].zsort != qb[1].zsort:
         raise Unsupported('concatenation over different element sorts', node)
-    et = qa[1] if not (isinstance(qa[1], TObj) and qa[1].cls is None) else qb[1]
     z = z3.Concat(qa[0], qb[0])
     if is_list and not fr.spec:
         return ctx.alloc(HList(z=z, et=et))
@@ -686,6 +691,10 @@ def index(I, ctx, fr, v, idx, node):
     idx = I.resolve(ctx, idx)
     h = I.hobj(ctx, v)
     if isinstance(h, HDict) or isinstance(v, VMap):
+        if fr is not None and fr.spec and not (h is not None and h.conc is not None and conc_key(idx) is not None):
+            # spec mode: total lookup (the array value), no KeyError split
+            dom, arr, kt, vt = dict_sym(I, ctx, v)
+            return vt.wrap(Z.simp(z3.Select(arr, kt.to_z(idx, ctx))))
         return dict_get(I, ctx, v, idx, node)
     if isinstance(v, VObj):
         return I.engine.opaque_getitem(ctx, v, idx, node)
@@ -728,11 +737,27 @@ def index(I, ctx, fr, v, idx, node):
     if q is not None:
         z, et = q
         n = z3.Length(z)
-        if not ctx.branch(Z.And(iz < n, iz >= -n)):
+        if fr is not None and fr.spec:
+            pass        # spec mode: total indexing
+        elif not ctx.branch(Z.And(iz < n, iz >= -n)):
             I.raise_exc(ctx, 'IndexError', 'index out of range', node)
-        pos = Z.simp(z3.If(iz >= 0, iz, n + iz))
+        pos = iz if nonneg(iz) else Z.simp(z3.If(iz >= 0, iz, n + iz))
         return et.wrap(Z.simp(z[pos]))
     raise Unsupported('subscript of %r' % (v,), node)
+
+
+def nonneg(t):
+    """Syntactic check that an Int term cannot be negative."""
+    t = Z.simp(t)
+    if z3.is_int_value(t):
+        return t.as_long() >= 0
+    if z3.is_app(t):
+        k = t.decl().kind()
+        if k == z3.Z3_OP_SEQ_LENGTH:
+            return True
+        if k == z3.Z3_OP_ADD:
+            return all(nonneg(t.arg(i)) for i in range(t.num_args()))
+    return False
 
 
 def _bound(I, ctx, b, n, default):
@@ -740,6 +765,8 @@ def _bound(I, ctx, b, n, default):
     if b is None or isinstance(b, VNone):
         return default
     bz = TInt.to_z(b)
+    if nonneg(bz):
+        return Z.simp(z3.If(bz > n, n, bz))
     bz = z3.If(bz < 0, z3.If(n + bz < 0, z3.IntVal(0), n + bz), z3.If(bz > n, n, bz))
     return Z.simp(bz)
 
@@ -875,6 +902,9 @@ def unpack(I, ctx, v, n, node):
         h = I.hobj(ctx, v)
         if isinstance(h, HList) and h.items is not None:
             items = h.items
+        elif isinstance(v, VUnzipped):
+            # only reached on the path where the rows are non-empty
+            items = list(v.cols)
         elif isinstance(v, VZip):
             raise Unsupported('unpacking a symbolic sequence of tuples', node)
         else:
